@@ -269,3 +269,62 @@ def c07_explicit(ctx, param, unit, pref_a, pref_b):
     for s in snaps[1:]:
         compare(ctx, 'explicit_independent_of_preference', base, {k: v for k, v in s.items() if not k.endswith('._units')},
                 {'param': param, 'unit': unit})
+
+
+# ---------------------------------------------------------------------------------------------------------------------------------
+# whole computations with explicit inputs under different preferred-unit assignments (carriers, symbolic request)
+
+def _cfg_compute(tier):
+    out = []
+    plan = [('A', 100.0, 'two'), ('B', 60.0, 'left')] if tier == 'quick' else [('A', 100.0, 'two'), ('B', 60.0, 'left'), ('C', 100.0, 'tail'), ('A', 30.0, 'none')]
+    for (c, step, wind) in plan:
+        for op in ('fire', 'fire_extra', 'zero', 'danger_space'):
+            out.append({'carrier': c, 'step_ft': step, 'wind': wind, 'op': op})
+    return out
+
+
+def _assignments(p):
+    """the three shipped presets + two assignments that set every slot to the last / middle unit of its dimension"""
+    eu = enum_units()
+    last = {sl: getattr(p.Unit, eu[d][-1]) for sl, d in SLOT_DIM.items()}
+    mid = {sl: getattr(p.Unit, eu[d][len(eu[d]) // 2]) for sl, d in SLOT_DIM.items()}
+    return [('imperial', None), ('metric', None), ('mixed', None), ('last', last), ('middle', mid)]
+
+
+@harness('C07.compute', 'C07', configs=_cfg_compute, functions=FUNCS, cost=12, engine_opts={'div_check': False, 'nl_axioms_in_feasibility': False},
+         must_reach=['check:result_independent_of_preferred_units'],
+         bounds='fire (plain / extra), set_weapon_zero and danger_space on carriers A, B [thorough: + C, finer A] with every input an explicit quantity and SYMBOLIC range / '
+                'record step (cells of the request plane; zero distance concrete): run under the three shipped presets and under two assignments that set all 15 slots to '
+                'other units of their dimension; every row field identical (doubles bit-for-bit, symbolic fields as identical terms)')
+def c07_compute(ctx, carrier, step_ft, wind, op):
+    from harness import carriers
+    p = pybc()
+    U = p.Unit
+    results = []
+    R0 = ctx.real('range_ft', 2 * step_ft, 5 * step_ft)
+    S0 = ctx.real('record_step_ft', step_ft, 5 * step_ft)
+    for (name, slots) in _assignments(p):
+        with with_preferred(**(slots or {})):
+            if slots is None:
+                {'imperial': p.loadImperialUnits, 'metric': p.loadMetricUnits, 'mixed': p.loadMixedUnits}[name]()
+            calc, shot = carriers.make(carrier, step_ft, wind)
+            R, S = U.Foot(R0), U.Foot(S0)
+            try:
+                if op == 'fire':
+                    out = [tuple(getattr(x, 'raw_value', x) for x in r) for r in calc.fire(shot, R, S).trajectory]
+                elif op == 'fire_extra':
+                    out = [tuple(getattr(x, 'raw_value', x) for x in r) for r in calc.fire(shot, R, S, True).trajectory]
+                elif op == 'zero':
+                    out = [(calc.set_weapon_zero(shot, U.Foot(3.0 * step_ft)).raw_value,)]
+                else:
+                    hr = calc.fire(shot, R, S, True)
+                    ds = hr.danger_space(U.Foot(1.5 * step_ft), U.Inch(20.0), U.Radian(0.0))
+                    out = [(hr.trajectory.index(ds.begin), hr.trajectory.index(ds.end), hr.trajectory.index(ds.at_range), ds.target_height.raw_value)]
+            except ArithmeticError:
+                out = [('arith',)]
+            results.append((name, out))
+    base = results[0][1]
+    for (name, out) in results[1:]:
+        same = len(out) == len(base) and all(len(a) == len(b) and all(ctx.same_term(x, y) if (ctx.is_symbolic(x) or ctx.is_symbolic(y) or isinstance(x, float)) else x == y
+                                                                      for x, y in zip(a, b)) for a, b in zip(out, base))
+        ctx.check('result_independent_of_preferred_units', same, info={'assignment': name, 'op': op})
